@@ -149,7 +149,8 @@ func TestC11_Moments(t *testing.T) {
 			case "cancel":
 				w.cancel()
 			case "listerror":
-				fault := rapid.SampledFrom(allListFaults).Draw(t, "fault")
+				fault, flavour := drawListFault(t)
+				w.api.listErr = flavour
 				if moment == "before-ready" {
 					w.releaseFirst(fault)
 				} else {
